@@ -137,6 +137,7 @@ def run(ctx):
                 break
     consumers(ctx, thorough)
     par_streams(ctx, thorough)
+    rt_queues(ctx, thorough)
     ctx.cov['rule'] = ('all histories of length %d over {add x2 prios x3 tasks, remove x3, pop, peek smallest/largest, '
                        'empty, clear, iter} plus %d seeded random histories (length 30-200, float prios with ties and '
                        'inf, re-adds) plus %d TLC-simulated behaviours of the L2 model; non-trivial = contains a re-add, '
@@ -145,7 +146,7 @@ def run(ctx):
     ctx.cov['exhaustive'] = True
     ctx.assumptions += ['CPython heapq extracts the least entry (heap layout abstracted)',
                         'task keys: strings in even-numbered histories, equal-but-not-identical objects (fresh instance per call) in odd ones',
-                        'consumers: the NRT ClockScheduler and the OSC score are observed here through tie programs, Ppar through the order in which it emits its children (decimal durations, times as ranks of IEEE sums); RT clock queues in C08, Ppar deltas and bundles in C14']
+                        'consumers: the NRT ClockScheduler and the OSC score are observed here through tie programs, Ppar through the order in which it emits its children (decimal durations, times as ranks of IEEE sums); the queues of the RT clocks through scheduling programs under the controlled scheduler with preemption points inside the TaskQueue methods (queue clauses of ClockL1; the full clock contract is C08); Ppar deltas and bundles in C14']
 
 
 def consumers(ctx, thorough):
@@ -227,6 +228,51 @@ def par_streams(ctx, thorough, only=None):
         raise MachineryError('vacuity: only %d of %d Ppar cases have two children meeting at an equal time' % (ties, len(traces)))
 
 
+QUEUE_CLAUSES = ('order', 'wake-not-pending', 'missed', 'clock-died', 'early')
+
+
+def rt_queues(ctx, thorough, only=None):
+    """consumer: the queues of the real-time clocks.  Programs of scheduling calls from several threads run on the real
+    SystemClock / AppClock / TempoClock under the controlled scheduler, with preemption points INSIDE the TaskQueue
+    methods (after every heap operation), and are judged by the ClockL1 monitor: what comes out of a clock's queue is
+    the stable time order of what went in, each scheduling once (the clauses that are about the queue)."""
+    import random
+    from props import C08
+    rnd = random.Random(ctx.seed + 909)
+    if only is not None:
+        progs = only
+    else:
+        progs = []
+        for i in range(600 if thorough else 70):
+            p = C08.gen_program(rnd, 7_000_000 + i)
+            p['qpoints'] = True
+            p['strategy'] = dict(kind=rnd.choice(['random', 'random', 'pct']), seed=rnd.randrange(1 << 30), p_stay=rnd.choice([0.0, 0.5]))
+            progs.append(p)
+    traces = [t for t in C08.run_batches(ctx, progs) if not t.get('nondyadic')]
+    for t in traces:
+        t.pop('branch', None)
+    v = ctx.validate('TraceClock', 'TraceClock.cfg', traces, timeout=1500)
+    ctx.cov['evaluations'] += len(traces)
+    ctx.cov['rt_queue_executions'] = len(traces)
+    pm = {p['id']: p for p in progs}
+    for t in traces:
+        if C08.nontrivial(t):
+            ctx.nontrivial([t['ev']])
+        r = v[t['id']]
+        if r is None:
+            continue
+        at, why = r
+        if why in QUEUE_CLAUSES:
+            ctx.violation('consumer:rt:%s' % why,
+                          'a real-time clock queue does not deliver the stable time order of its schedulings (%s) at event %d: %s'
+                          % (why, at, C08.brief(t['ev'][at - 1])),
+                          dict(kind='rt-queue', program=pm[t['id']], rejected_at=at, why=why,
+                               events=[C08.brief(e) for e in t['ev'][max(0, at - 25):at]]))
+        else:
+            ctx.cov.setdefault('rt_queue_rejections_belonging_to_C08', {}).setdefault(why, 0)
+            ctx.cov['rt_queue_rejections_belonging_to_C08'][why] += 1
+
+
 def run_histories(ctx, hs, base=0):
     n = len(hs)
     per = max(1, (n + 15) // 16)
@@ -239,6 +285,9 @@ def run_histories(ctx, hs, base=0):
 
 
 def replay(ctx, rp):
+    if rp['replay'].get('kind') == 'rt-queue':
+        ctx.cov['evaluations'] = 0
+        return rt_queues(ctx, False, only=[rp['replay']['program']])
     if rp['replay'].get('kind') == 'par-case':
         ctx.cov['evaluations'] = 0
         return par_streams(ctx, False, only=[rp['replay']['case']])
@@ -268,7 +317,7 @@ MANIFEST = dict(
     text=('TLC checks exhaustively (3 tasks, 2-3 priorities, bounded stamps) that the stable-priority-queue spec '
           'satisfies the stated laws and that a line-by-line model of the lazy-deletion heap refines it; the real '
           'class is bound to the spec by validating every history of length <=4 (thorough: 5) over the complete method '
-          'alphabet plus long random histories as traces (string keys and equal-but-not-identical keys), by replaying simulated model behaviours, and through its consumers: tie programs on the NRT clock scheduler and equal-time bundles in the OSC score, followed by TLC through the LogicalTime machine, and Ppar over children with decimal durations, whose emission order TLC folds through the stable merge of the children\'s own time lines (TraceParMerge.tla).'),
+          'alphabet plus long random histories as traces (string keys and equal-but-not-identical keys), by replaying simulated model behaviours, and through its consumers: tie programs on the NRT clock scheduler and equal-time bundles in the OSC score, followed by TLC through the LogicalTime machine, and Ppar over children with decimal durations, whose emission order TLC folds through the stable merge of the children\'s own time lines (TraceParMerge.tla), and the queues of the real-time clocks (scheduling programs from several threads under the controlled scheduler with preemption points inside the TaskQueue methods, judged by the queue clauses of the ClockL1 monitor).'),
     note='Trusted: TLC, CPython heapq, the 60-line driver that records return values. Histories are finite and tasks are strings.',
     technique='TLA+ L1/L2 refinement checked by TLC + batch trace validation of exhaustive/random histories on the real TaskQueue and of its consumers (NRT scheduler, OSC score)',
     design_ref='DESIGN.md section 3 / C09',
